@@ -105,10 +105,10 @@ func concShapes() []shape {
 
 type concRun struct {
 	*caseRun
-	shortIn, aIn, bIn             chan struct{}
-	releaseShort, releaseA        chan struct{}
-	armedCh, failCh               chan struct{}
-	onceShort, onceA, onceB       sync.Once
+	shortIn, aIn, bIn       chan struct{}
+	releaseShort, releaseA  chan struct{}
+	armedCh, failCh         chan struct{}
+	onceShort, onceA, onceB sync.Once
 }
 
 func (r *concRun) tick(ctx context.Context, mod api.Module, stack []uint64) {
